@@ -462,6 +462,84 @@ func main() {
 			return true
 		})
 		def("start_checks_addr_error", "bool", coqBool(checked), "client.go Start: `if err != nil` directly follows the `switch network` statement")
+		// launch-option exclusivity: a counter incremented once per set option among Cmd / Reattach / RunnerFunc, compared with 1
+		{
+			optCode := map[string]int64{"(c.config.Cmd!=nil)": 0, "(c.config.Reattach!=nil)": 1, "(c.config.RunnerFunc!=nil)": 2}
+			counter := ""
+			var counted []int64
+			exactlyOne, secRe, muxRe := false, false, false
+			var firstLaunchPos token.Pos
+			ast.Inspect(start, func(n ast.Node) bool {
+				if ce, ok := n.(*ast.CallExpr); ok && firstLaunchPos == 0 {
+					f := exprString(ce.Fun)
+					if f == "c.reattach" || f == "c.config.RunnerFunc" || f == "cmdrunner.NewCmdRunner" {
+						firstLaunchPos = ce.Pos()
+					}
+				}
+				return true
+			})
+			returnsErr := func(b *ast.BlockStmt) bool {
+				if len(b.List) != 1 {
+					return false
+				}
+				r, ok := b.List[0].(*ast.ReturnStmt)
+				return ok && len(r.Results) == 2 && exprString(r.Results[0]) == "nil" && exprString(r.Results[1]) != "nil"
+			}
+			ast.Inspect(start, func(n ast.Node) bool {
+				is, ok := n.(*ast.IfStmt)
+				if !ok || is.Init != nil || is.Else != nil || (firstLaunchPos != 0 && is.Pos() > firstLaunchPos) {
+					return true
+				}
+				cond := exprString(is.Cond)
+				if code, ok := optCode[cond]; ok && len(is.Body.List) == 1 {
+					v := ""
+					switch x := is.Body.List[0].(type) {
+					case *ast.AssignStmt:
+						if x.Tok == token.ADD_ASSIGN && len(x.Lhs) == 1 && len(x.Rhs) == 1 && exprString(x.Rhs[0]) == "1" {
+							v = exprString(x.Lhs[0])
+						}
+					case *ast.IncDecStmt:
+						if x.Tok == token.INC {
+							v = exprString(x.X)
+						}
+					}
+					if v != "" && (counter == "" || counter == v) {
+						counter = v
+						counted = append(counted, code)
+					}
+				}
+				if counter != "" && cond == "("+counter+"!=1)" && returnsErr(is.Body) {
+					exactlyOne = true
+				}
+				if (cond == "((c.config.SecureConfig!=nil)&&(c.config.Reattach!=nil))" || cond == "((c.config.Reattach!=nil)&&(c.config.SecureConfig!=nil))") && returnsErr(is.Body) {
+					secRe = true
+				}
+				if (cond == "(c.config.GRPCBrokerMultiplex&&(c.config.Reattach!=nil))" || cond == "((c.config.Reattach!=nil)&&c.config.GRPCBrokerMultiplex)") && returnsErr(is.Body) {
+					muxRe = true
+				}
+				return true
+			})
+			def("launch_options_counted", "list Z", coqZList(counted), "client.go Start, before anything is launched or attached: the options (0 Cmd, 1 Reattach, 2 RunnerFunc) whose presence increments the exclusivity counter, in order")
+			def("launch_requires_exactly_one", "bool", coqBool(exactlyOne), "client.go Start: `if <counter> != 1 { return nil, err }`")
+			def("launch_rejects_secure_reattach", "bool", coqBool(secRe), "client.go Start: SecureConfig together with Reattach returns an error before anything is attached")
+			def("launch_rejects_mux_reattach", "bool", coqBool(muxRe), "client.go Start: GRPCBrokerMultiplex together with Reattach returns an error before anything is attached")
+		}
+		// the runner is recorded on the client before runner.Start is called (so that Kill can reach a runner whose Start fails)
+		var recPos, startPos token.Pos
+		ast.Inspect(start, func(n ast.Node) bool {
+			switch x := n.(type) {
+			case *ast.AssignStmt:
+				if len(x.Lhs) == 1 && len(x.Rhs) == 1 && exprString(x.Lhs[0]) == "c.runner" && exprString(x.Rhs[0]) == "runner" && recPos == 0 {
+					recPos = x.Pos()
+				}
+			case *ast.CallExpr:
+				if exprString(x.Fun) == "runner.Start" && startPos == 0 {
+					startPos = x.Pos()
+				}
+			}
+			return true
+		})
+		def("start_records_runner_before_start", "bool", coqBool(recPos != 0 && startPos != 0 && recPos < startPos), "client.go Start: `c.runner = runner` textually precedes the call runner.Start(...) (both in the straight-line tail of Start)")
 		drains := false
 		ast.Inspect(start, func(n ast.Node) bool {
 			if ce, ok := n.(*ast.CallExpr); ok && exprString(ce.Fun) == "io.Copy" && len(ce.Args) == 2 {
@@ -513,6 +591,49 @@ func main() {
 	// Kill grace
 	kill := findFunc(client, "Client", "Kill")
 	def("kill_timers", "list Z", coqZList(timers(kill)), "client.go Kill: grace period timers (seconds)")
+	if kill != nil {
+		// the shape of Kill that the failed-start model (Model/StartFail.v) relies on
+		earlyReturn, removesDir, forgets, forceKill := false, false, false, false
+		var earlyPos, deferPos token.Pos
+		ast.Inspect(kill, func(n ast.Node) bool {
+			switch x := n.(type) {
+			case *ast.IfStmt:
+				c := exprString(x.Cond)
+				if (c == "((runner==nil)||(runner.ID()==\"\"))" || c == "((runner.ID()==\"\")||(runner==nil))") && len(x.Body.List) == 1 {
+					if r, ok := x.Body.List[0].(*ast.ReturnStmt); ok && len(r.Results) == 0 {
+						earlyReturn = true
+						earlyPos = x.Pos()
+					}
+				}
+			case *ast.DeferStmt:
+				if fl, ok := x.Call.Fun.(*ast.FuncLit); ok {
+					ast.Inspect(fl.Body, func(m ast.Node) bool {
+						switch y := m.(type) {
+						case *ast.CallExpr:
+							if exprString(y.Fun) == "os.RemoveAll" && len(y.Args) == 1 && exprString(y.Args[0]) == "hostSocketDir" {
+								removesDir = true
+								deferPos = x.Pos()
+							}
+						case *ast.AssignStmt:
+							if len(y.Lhs) == 1 && exprString(y.Lhs[0]) == "c.runner" && exprString(y.Rhs[0]) == "nil" {
+								forgets = true
+							}
+						}
+						return true
+					})
+				}
+			case *ast.CallExpr:
+				if exprString(x.Fun) == "runner.Kill" {
+					forceKill = true
+				}
+			}
+			return true
+		})
+		def("kill_returns_without_runner_or_id", "bool", coqBool(earlyReturn), "client.go Kill: `if runner == nil || runner.ID() == \"\" { return }`")
+		def("kill_defers_dir_removal", "bool", coqBool(removesDir && earlyReturn && earlyPos < deferPos), "client.go Kill: a deferred function, registered after the early return, removes the socket directory (os.RemoveAll(hostSocketDir))")
+		def("kill_forgets_runner", "bool", coqBool(forgets), "client.go Kill: the deferred function sets c.runner = nil")
+		def("kill_force_kills", "bool", coqBool(forceKill), "client.go Kill: runner.Kill is called on the non-graceful path")
+	}
 
 	// logStderr level prefixes
 	ls := findFunc(client, "Client", "logStderr")
@@ -937,6 +1058,7 @@ func main() {
 		def("tls_broker_serves_with_tls", "bool", coqBool(brokerTLS), "grpc_broker.go AcceptAndServe: brokered servers get credentials.NewTLS(b.tls)")
 		// every certificate pool of the package starts empty: x509.NewCertPool() is used and x509.SystemCertPool() is not
 		usesNew, usesSystem := false, false
+		overridesVerify := false // InsecureSkipVerify / VerifyPeerCertificate / VerifyConnection set anywhere
 		ents, _ := os.ReadDir(*repo)
 		for _, e := range ents {
 			n := e.Name()
@@ -945,6 +1067,23 @@ func main() {
 			}
 			if f := load(*repo, n); f != nil {
 				ast.Inspect(f, func(nd ast.Node) bool {
+					isVerifyField := func(name string) bool {
+						return name == "InsecureSkipVerify" || name == "VerifyPeerCertificate" || name == "VerifyConnection"
+					}
+					switch x := nd.(type) {
+					case *ast.AssignStmt:
+						for i, l := range x.Lhs {
+							if se, ok := l.(*ast.SelectorExpr); ok && isVerifyField(se.Sel.Name) {
+								if !(i < len(x.Rhs) && (exprString(x.Rhs[i]) == "false" || exprString(x.Rhs[i]) == "nil")) {
+									overridesVerify = true
+								}
+							}
+						}
+					case *ast.KeyValueExpr:
+						if id, ok := x.Key.(*ast.Ident); ok && isVerifyField(id.Name) && exprString(x.Value) != "false" && exprString(x.Value) != "nil" {
+							overridesVerify = true
+						}
+					}
 					if ce, ok := nd.(*ast.CallExpr); ok {
 						switch exprString(ce.Fun) {
 						case "x509.NewCertPool":
@@ -958,6 +1097,7 @@ func main() {
 			}
 		}
 		def("tls_pools_only_pinned", "bool", coqBool(usesNew && !usesSystem), "all non-test files of the package: certificate pools come from x509.NewCertPool(), never from x509.SystemCertPool()")
+		def("tls_standard_verification", "bool", coqBool(!overridesVerify), "all non-test files of the package: no tls.Config field InsecureSkipVerify / VerifyPeerCertificate / VerifyConnection is ever set (crypto/tls's own chain verification against the pinned pools decides)")
 	}
 
 	// ---- GRPCClient.Close: is the Shutdown request bounded by context.WithTimeout(..., k*time.Second)?
